@@ -105,7 +105,30 @@ Definition edge_form (s : Q) (a b : pt) : form2 :=
 Definition tri_forms (g : gtri) : list form2 :=
   let '(a, b, c) := g in
   let s := orient a b c in [edge_form s a b; edge_form s b c; edge_form s c a].
-Definition overlapb (g h : gtri) : bool := feasible2 (tri_forms g ++ tri_forms h).
+Definition overlap_fm (g h : gtri) : bool := feasible2 (tri_forms g ++ tri_forms h).
+
+(* fast path: an edge of one triangle has the whole other triangle on its outer side (closed);
+   then the open interiors are disjoint and the elimination need not run.  For two triangles with
+   disjoint interiors such an edge always exists, so valid outputs never reach overlap_fm; the
+   checker stays sound and complete because only the easy direction is used (DelaunayProofs.v) *)
+Definition edge_sepb (s : Q) (a b : pt) (h : gtri) : bool :=
+  let '(u, v, w) := h in
+  negb (Qltb 0 (s * orient a b u)) && negb (Qltb 0 (s * orient a b v)) && negb (Qltb 0 (s * orient a b w)).
+Definition tri_sepb (g h : gtri) : bool :=
+  let '(a, b, c) := g in
+  let s := orient a b c in
+  edge_sepb s a b h || edge_sepb s b c h || edge_sepb s c a h.
+(* faster still: the bounding boxes are strictly apart in x or in y (comparisons only) *)
+Definition qmin (x y : Q) : Q := if Qltb y x then y else x.
+Definition qmax (x y : Q) : Q := if Qltb x y then y else x.
+Definition lo3 (f : pt -> Q) (g : gtri) : Q := let '(a, b, c) := g in qmin (f a) (qmin (f b) (f c)).
+Definition hi3 (f : pt -> Q) (g : gtri) : Q := let '(a, b, c) := g in qmax (f a) (qmax (f b) (f c)).
+Definition box_apartb (g h : gtri) : bool :=
+  Qltb (hi3 fst g) (lo3 fst h) || Qltb (hi3 fst h) (lo3 fst g) ||
+  Qltb (hi3 snd g) (lo3 snd h) || Qltb (hi3 snd h) (lo3 snd g).
+Definition overlapb (g h : gtri) : bool :=
+  if box_apartb g h then false
+  else if tri_sepb g h || tri_sepb h g then false else overlap_fm g h.
 
 Fixpoint pairwiseb {A} (r : A -> A -> bool) (l : list A) : bool :=
   match l with
@@ -148,3 +171,17 @@ Definition usedb (ts : list tri) (i : nat) : bool :=
 Definition completeb (pts : list pt) (ts : list tri) : bool :=
   allb (usedb ts) (seq 0 (length pts)) &&
   (length ts + 2 + hull_count pts =? 2 * length pts)%nat.
+
+(* coverage of the convex hull, by area: with no three points collinear the directed hull edges are
+   the pairs p->q with every other point strictly to the left, the shoelace sum over them is twice
+   the hull area, and non-overlapping triangles cover the hull iff their areas add up to it *)
+Definition cross (p q : pt) : Q := fst p * snd q - fst q * snd p.
+Definition hull_edgeb (pts : list pt) (p q : pt) : bool :=
+  negb (pt_eqb p q) && allb (fun r => pt_eqb r p || pt_eqb r q || Qltb 0 (orient p q r)) pts.
+Definition hull_area2 (pts : list pt) : Q :=
+  fold_left (fun acc p =>
+    fold_left (fun acc q => if hull_edgeb pts p q then acc + cross p q else acc) pts acc) pts 0.
+Definition qabs (x : Q) : Q := if Qltb x 0 then - x else x.
+Definition area2 (pts : list pt) (ts : list tri) : Q :=
+  fold_left (fun acc t => acc + qabs (gorient (resolve pts t))) ts 0.
+Definition coverb (pts : list pt) (ts : list tri) : bool := Qeq_bool (area2 pts ts) (hull_area2 pts).
